@@ -106,10 +106,10 @@ def decisions(L, p, moved):
             d["ep_some"] = (v == 1)
         elif e[0] == "bin" and e[1] in ("Eq", "Ne") and TO in (e[2], e[3]) and EPSQ in (e[2], e[3]):
             d["epcap"] = (e[1] == "Eq") == b
-        elif e[0] == "bin" and e[1] == "Eq" and set((e[2], e[3])) == {("relrank", 7, STM), ("rank", TO)}:
-            d["their_back"] = b
-        elif e[0] == "bin" and e[1] == "Eq" and set((e[2], e[3])) == {("relrank", 0, STM), ("rank", FROM)}:
-            d["our_back"] = b
+        elif e[0] == "bin" and e[1] in ("Eq", "Ne") and set((e[2], e[3])) in ({("relrank", 7, STM), ("rank", TO)}, {("relrank", 0, NSTM), ("rank", TO)}):
+            d["their_back"] = (e[1] == "Eq") == b          # the 8th rank of the mover is the 1st rank of the opponent
+        elif e[0] == "bin" and e[1] in ("Eq", "Ne") and set((e[2], e[3])) in ({("relrank", 0, STM), ("rank", FROM)}, {("relrank", 7, NSTM), ("rank", FROM)}):
+            d["our_back"] = (e[1] == "Eq") == b
         elif e[0] == "bin" and e[1] == "Eq" and is_some_of(e[2], ("file", TO)) and e[3][0] == "field" and \
                 e[3][1] == ("get", "castle_rights", SELF, NSTM):
             d["cap_" + e[3][2]] = b
@@ -161,7 +161,9 @@ def run(ctx):
     roles = zob.Roles(ctx, f)
     W = {k for k in roles.writers if f.bodies[k].j.get("impl_self") == roles.inner_ty}
     body = f.need(B + "::play_unchecked")
-    se = sym.SymExec(f, body, inline=lambda n: False if n in W else None, max_paths=100000)
+    from .common import read_as_part_of
+    own = read_as_part_of(f, body.key, stop=lambda n: n in W)
+    se = sym.SymExec(f, body, inline=lambda n: False if n in W else (True if n in own else None), max_paths=100000)
     paths = se.run()
     where = loc(body)
     ctx.saw("%s: %d paths" % (body.key, len(paths)))
@@ -208,7 +210,26 @@ def run(ctx):
             continue
         # writer calls on this board's position state, made directly or through an inlined private helper
         wev = [e for e in p.events if e.kind == "call" and e.name in W and e.args and e.args[0][0] == "ptr" and e.args[0][1] == ("P", "self")]
-        place = sorted([tuple(strip_ver(L.lift(a)) for a in e.args[1:]) for e in wev if role.get(e.name) == "place"], key=repr)
+        place = []
+        for e in wev:
+            if role.get(e.name) != "place":
+                continue
+            pc_, col_, where_ = (strip_ver(L.lift(a)) for a in e.args[1:])
+            # a writer that toggles a set of squares: a set written as an XOR of single squares is that many single toggles
+            # (x ^= a; x ^= b  ==  x ^= (a ^ b), also when a == b)
+            def singles(s_):
+                if s_[0] == "xor":
+                    l_, r_ = singles(s_[1]), singles(s_[2])
+                    return None if l_ is None or r_ is None else l_ + r_
+                if s_[0] == "bbof":
+                    return [s_[1]]
+                return None
+            sq_list = singles(where_) if where_[0] in ("xor", "bbof") else None
+            if sq_list is None:
+                place.append((pc_, col_, where_))
+            else:
+                place += [(pc_, col_, s_) for s_ in sq_list]
+        place = sorted(place, key=repr)
         rights = sorted([tuple(strip_ver(L.lift(a)) for a in e.args[1:]) for e in wev if role.get(e.name) == "rights"], key=repr)
         eps = [strip_ver(L.lift(e.args[1])) for e in wev if role.get(e.name) == "ep"]
         toggles = [e for e in wev if role.get(e.name) == "toggle"]
